@@ -78,7 +78,8 @@ def run(tier, seed, escalate=False):
                     model_ops.append(dict({"op": "layout", "q": "decode", "L": kit.layout(cfg2),
                                            "bytes": c["bytes"] + ([0xAB] * c["cfg"].get("trailer", 0))},
                                           # the stated data length stays what the intact file says
-                                          **({"declared": kit.declared(c["cfg"])} if hasattr(kit, "declared") else {})))
+                                          **({"declared": kit.declared(cfg2 if getattr(kit, "declared_follows_header", False) else c["cfg"])}
+                                             if hasattr(kit, "declared") else {})))
                     plan.append((ci, "header:field%d:%+d" % (fld, delta), "hdr", fld, delta))
         outs, _ = run_model(model_ops) if model_ops else ([], 0)
         oi = 0
